@@ -19,6 +19,9 @@ def gen_ttm(rng, cplx, d=None, square=False):
 
 def gen_case(rng, car):
     cplx = car is coqrun.ZI
+    if expr.CUR_DTYPE[0] == "torch.complex64" and rng.random() < 0.4:          # the single-precision complex dtype goes through conj / t() most of all
+        x = gen_tt(rng, cplx) if rng.random() < 0.6 else gen_ttm(rng, cplx)
+        return Op("OConj", [x]), "conj", None
     r = rng.random()
     if r < 0.22:                                   # cat: 2..3 operands, every axis
         x = gen_tt(rng, cplx)
@@ -26,6 +29,8 @@ def gen_case(rng, car):
         dim = rng.randrange(len(N))
         ops = [x]
         for _ in range(rng.choice([1, 1, 2])):
+            if rng.random() < 0.25:                # the same object again: cat((x, x)), cat((x, y, x)), ...
+                ops.append(ops[rng.randrange(len(ops))]); continue
             Ny = list(N); Ny[dim] = rng.choice([1, 2, 3, 4])
             ops.append(gen_tt(rng, cplx, N=Ny))
         return Op("OCat", ops, [[dim]]), "cat%d" % len(ops), None
@@ -144,7 +149,7 @@ def exhaustive_structures(rng):
 
 def run(tier, seed, replay=None):
     import torch
-    dtypes = [(torch.float64, coqrun.Z), (torch.complex128, coqrun.ZI), (torch.float64, coqrun.Z), (torch.float32, coqrun.Z)]
+    dtypes = [(torch.float64, coqrun.Z), (torch.complex128, coqrun.ZI), (torch.float64, coqrun.Z), (torch.float32, coqrun.Z), (torch.complex64, coqrun.ZI)]
     return exprcheck.run(PID, tier, seed, gen_case, 400, 6000, RULE + ("; thorough tier additionally enumerates EVERY small structure of cat, pad (tensors and operators), "
                          "single mode products, diag and to_ttm" if tier == "thorough" else ""), nontrivial, dtypes, evaluate=evaluate,
                          extra_cases=exhaustive_structures if tier == "thorough" else None)
